@@ -232,7 +232,15 @@ func (c *Ctx) rulesC05(a *coreAnchors) {
 					})
 					return out
 				}
-				b0, b1 := base(call.Call.Args[0]), loadOfField(call.Call.Args[1])
+				a1 := call.Call.Args[1]
+				for {
+					if ct, ok := a1.(*ssa.ChangeType); ok {
+						a1 = ct.X
+						continue
+					}
+					break
+				}
+				b0, b1 := base(call.Call.Args[0]), loadOfField(a1)
 				if b0 == fExits && b1 == fEnters && verdict == "" {
 					verdict = "good"
 				} else if b0 == fEnters && b1 == fExits {
